@@ -6,7 +6,7 @@ AST (python tuples)
         | ('slit', sid, [field exprs]) | ('field', e, k)            (struct types are the strings "S<sid>", table STRUCTS)
   stmt: ('let', x, ty, e, const?) | ('assign', x, e) | ('cassign', x, op, e) | ('inc', x, +1|-1)
         | ('assignf', x, k, e) | ('cassignf', x, k, op, e)
-        | ('if', c, blockA, blockB) | ('while', c, block) | ('for', x, ity, lo, hi, block) | ('match', e, ity, [(int, block)], default_block|None)
+        | ('if', c, blockA, blockB) | ('while', c, block) | ('for', x, ity, lo, hi, block[, inclusive?, step expr|None]) | ('match', e, ity, [(int, block)], default_block|None)
         | ('break',) | ('continue',) | ('return', e|None)
         | ('print', [es]) | ('expr', e) | ('block', block)
   block: list of stmt.  fn: dict(params=[(x, ty)], ret=ty, body=block).  prog: list of fn, last is main.
@@ -82,7 +82,10 @@ def r_stmt(s, ind):
     if k == "while":
         return ["%swhile %s {" % (p, r_expr(s[1]))] + r_block(s[2], ind + 1) + ["%s}" % p]
     if k == "for":
-        return ["%sfor v%d in %s..%s {" % (p, s[1], r_expr(s[3]), r_expr(s[4]))] + r_block(s[5], ind + 1) + ["%s}" % p]
+        incl = len(s) > 6 and s[6]
+        step = s[7] if len(s) > 7 else None
+        return ["%sfor v%d in %s%s%s%s {" % (p, s[1], r_expr(s[3]), "..=" if incl else "..", r_expr(s[4]),
+                                             "" if step is None else ":" + r_expr(step))] + r_block(s[5], ind + 1) + ["%s}" % p]
     if k == "match":
         out = ["%smatch %s {" % (p, r_expr(s[1]))]
         for v, b in s[3]:
@@ -154,7 +157,10 @@ def c_stmt(s):
     if k == "cassignf": return "(SAssignField %d %d (EBin %s (EField (EVar %d) %d) %s))" % (s[1], s[2], COQ_OP[s[3]], s[1], s[2], c_expr(s[4]))
     if k == "if": return "(SIf %s %s %s)" % (c_expr(s[1]), c_block(s[2]), c_block(s[3]))
     if k == "while": return "(SWhile %s %s)" % (c_expr(s[1]), c_block(s[2]))
-    if k == "for": return "(SFor %d %s %s %s %s)" % (s[1], c_ity(s[2]), c_expr(s[3]), c_expr(s[4]), c_block(s[5]))
+    if k == "for":
+        incl = len(s) > 6 and s[6]
+        step = s[7] if len(s) > 7 and s[7] is not None else ("lit", s[2], 1)
+        return "(SFor %d %s %s %s %s %s %s)" % (s[1], c_ity(s[2]), c_expr(s[3]), c_expr(s[4]), "true" if incl else "false", c_expr(step), c_block(s[5]))
     if k == "match":
         # desugared in the reference: { const tmp = e; if tmp == v1 {a1} else if tmp == v2 {a2} ... else {default} }
         global _match_tmp
@@ -492,10 +498,35 @@ class Gen:
             lo = r.randint(-2, 3) if signed(t) else r.randint(0, 3)
             n = r.randint(0, 4)
             env2 = env + [{vlo: (t, True), vhi: (t, True)}]
+            decls = [("let", vlo, t, ("lit", t, lo), True), ("let", vhi, t, ("lit", t, lo + n), True)]
+            incl, step = False, None
+            shape = r.random()
+            if shape < 0.4:
+                pass                                   # lo..hi, default step
+            else:
+                # inclusive bound and/or explicit step; the step is a literal (sign known to the compiler) or a local
+                # (sign tested at run time); bounds stay far from the type limits, so the variable never wraps
+                incl = r.random() < 0.6
+                self.feat("for-inclusive" if incl else "for-exclusive-step")
+                if r.random() < 0.75:
+                    k = r.choice([1, 2, 3])
+                    down = signed(t) and r.random() < 0.5
+                    hi_v = lo + n * k if r.random() < 0.6 else lo + n * k + r.randint(0, k)   # end hit exactly, or stepped over
+                    a, b = (hi_v, lo) if down else (lo, hi_v)
+                    decls = [("let", vlo, t, ("lit", t, a), True), ("let", vhi, t, ("lit", t, b), True)]
+                    sv = -k if down else k
+                    self.feat("for-step-down" if down else "for-step-up")
+                    if r.random() < 0.5:
+                        step = ("lit", t, sv)
+                    else:
+                        vs = self.fresh()
+                        env2[-1][vs] = (t, False)
+                        decls.append(("let", vs, t, ("lit", t, sv), False))
+                        step = ("var", vs)
+                        self.feat("for-step-variable")
             env3 = env2 + [{x: (t, True)}]           # the loop variable is immutable
-            body = self.block(env3, d - 1, True, ret, r.randint(1, 4), protected | {x, vlo, vhi})
-            return ("block", [("let", vlo, t, ("lit", t, lo), True), ("let", vhi, t, ("lit", t, lo + n), True),
-                              ("for", x, t, ("var", vlo), ("var", vhi), body)])
+            body = self.block(env3, d - 1, True, ret, r.randint(1, 4), protected | {x, vlo, vhi} | ({step[1]} if step and step[0] == "var" else set()))
+            return ("block", decls + [("for", x, t, ("var", vlo), ("var", vhi), body, incl, step)])
         if c == "match":
             t = r.choice(self.itys)
             e = self.int_expr(t, env, r.randint(0, 2), nonlit=True)
